@@ -14,6 +14,7 @@ RLIMIT = os.environ.get("VERIF_RLIMIT", "40")
 OBLIGATION_MSGS = [
     ("postcondition not satisfied", "postcondition"),
     ("precondition not satisfied", "precondition"),
+    ("fails to satisfy `callee.requires(args)`", "precondition"),
     ("invariant not satisfied", "invariant"),
     ("assertion failed", "assertion"),
     ("possible arithmetic underflow/overflow", "overflow"),
